@@ -54,7 +54,7 @@ if git -C "$W2" apply "$OUT/patch.diff"; then
     FATFS_PATH="$W2" timeout 1200 /verif/check $c quick >"/tmp/confirm/$ID.$c.out" 2>&1; rc=$?
     if grep -q "^VIOLATION property=$c" "/tmp/confirm/$ID.$c.out"; then
       CAUGHT="$CAUGHT $c"
-      { echo "== $c (exit $rc)"; grep -A3 "^VIOLATION" "/tmp/confirm/$ID.$c.out" | cut -c1-400 | head -24; } >>"$OUT/check_output.txt"
+      { echo "== $c (exit $rc)"; grep -a -A3 "^VIOLATION" "/tmp/confirm/$ID.$c.out" | cut -c1-400 | head -24; } >>"$OUT/check_output.txt"
     elif [ $rc -ne 0 ]; then
       { echo "== $c exit $rc without VIOLATION line"; tail -5 "/tmp/confirm/$ID.$c.out"; } >>"$OUT/check_output.txt"
     fi
